@@ -14,6 +14,12 @@ add('C10',
     'Lean 4 proof (induction on the string, per literal family) + differential correspondence of model and code + spec-lexer oracle on real output',
     'DESIGN.md section 5 C10')
 
+add('C16',
+    'Lean 4 theorems over a pure model (TypeAlg.meet) of reference_algebra.Unify on views: symmetry for all type terms of any depth (clashing ones included), idempotence and absorption (repeating a unification changes nothing) for clash-free terms, record fields kept and none invented, clash generators. Tied to the code on every run by differential execution of Unify+VeryConcreteType on fresh reference trees against the Lean driver (exhaustive on depth<=1 pairs in thorough), and the property clauses are evaluated on the real references with an independent ground-instance semantics (same view on both sides, symmetry, idempotence, result below both inputs, no common instance lost, clash iff no common instance at depth<=1, order independence of clash-free triples).',
+    'Trusted: Lean kernel + standard axioms; correspondence harness; BadType payloads erased; cyclic reference stores not modelled. Full clash<->no-common-instance and associativity theorems are stage 2 (checked by enumeration only, which is not counted as proof).',
+    'Lean 4 proof (mutual well-founded induction over type terms) + differential correspondence + semantic oracle on real references',
+    'DESIGN.md section 5 C16')
+
 ALL = ['C%02d' % i for i in range(1, 21)]
 
 def main():
